@@ -53,8 +53,12 @@ type CallObs struct {
 	Segments string   // JSON of the sprint's segments
 	Session  string   // json.Marshal of the session after the call ("" if none)
 	Status   string
-	Sess     flows.Session `json:"-"`
-	Sprint   flows.Sprint  `json:"-"`
+	// the per-call fields of the Go session as left by the call
+	BatchStart bool
+	ResumeType string // "" = CurrentResume() is nil
+	HasParent  bool
+	Sess       flows.Session `json:"-"`
+	Sprint     flows.Sprint  `json:"-"`
 }
 
 // Exec is one execution of a scenario under a pattern.
@@ -131,6 +135,11 @@ func observe(s flows.Session, sp flows.Sprint, err error, p any, hung bool) *Cal
 			o.Session = string(b)
 		}
 		o.Status = string(s.Status())
+		o.BatchStart = s.BatchStart()
+		if cr := s.CurrentResume(); cr != nil {
+			o.ResumeType = cr.Type()
+		}
+		o.HasParent = s.ParentRun() != nil
 	}
 	return o
 }
